@@ -23,8 +23,31 @@ def activate():
     sys.path.insert(0, SRC)
     if VERIF_DIR not in sys.path:
         sys.path.insert(1, VERIF_DIR)
+    _memoise_asn1_compilation()
     import flexstack  # noqa
     got = os.path.realpath(os.path.dirname(flexstack.__file__))
     want = os.path.realpath(os.path.join(SRC, "flexstack"))
     if got != want:
         raise RuntimeError(f"flexstack imported from {got}, expected {want}")
+
+
+def _memoise_asn1_compilation():
+    """Every CAMCoder()/VAMCoder()/DENMCoder() recompiles its ASN.1 module (0.5-1.5 s).  The compiled specification is
+    immutable, so the harness memoises asn1tools.compile_string per (text, codec): same objects, same behaviour, and
+    thousands of station constructions per check become affordable."""
+    try:
+        import asn1tools
+    except ImportError:
+        return
+    if getattr(asn1tools.compile_string, "_verif_memo", False):
+        return
+    real = asn1tools.compile_string
+    cache = {}
+
+    def compile_string(string, codec="ber", *a, **k):
+        key = (hash(string), len(string), codec, a, tuple(sorted(k.items())))
+        if key not in cache:
+            cache[key] = real(string, codec, *a, **k)
+        return cache[key]
+    compile_string._verif_memo = True
+    asn1tools.compile_string = compile_string
